@@ -6,9 +6,10 @@
    convergence / callback decision sequence, mask and sparsity setting and every iteration budget.  pre / pre_on is
    parafac's orthogonalise hook (an arbitrary replacement of every NON-FIXED factor, commit ef1ea18), ls_on / lsf its
    line search. *)
+From Coq Require Import String.
 From Coq Require Import List Arith Bool Ring ZArith Relations.
 From TLV Require Import Base.Shape Base.PyList Base.Tensor Base.BigSum Model.WarmStart Proofs.WarmStartProofs
-  Proofs.WarmStartProofs2 Proofs.WarmStartTucker Proofs.WarmStartP2 Proofs.WarmStartEndToEnd Proofs.WarmStartSrc Proofs.WarmStartReq Proofs.WarmStartNorm Proofs.WarmStartHalsSem.
+  Proofs.WarmStartProofs2 Proofs.WarmStartTucker Proofs.WarmStartP2 Proofs.WarmStartEndToEnd Proofs.WarmStartSrc Proofs.WarmStartReq Proofs.WarmStartNorm Proofs.WarmStartHalsSem Proofs.WarmStartSrc2 Proofs.WarmStartCls.
 Import ListNotations.
 
 (* (i) the tensor represented by the initialisation, weights absorbed into the last factor *)
@@ -734,3 +735,129 @@ Theorem C14_hals_model_block_admissible : hals_pre_ok hals_pre_model /\
   init_hals rI rmul eqb R n fixed w fs = init_hals_gen rI rmul eqb hals_pre_model R n fixed w fs.
 Proof. exact (conj hals_pre_model_ok (@init_hals_is_gen)). Qed.
 Print Assumptions C14_hals_model_block_admissible.
+
+(* ---- round 7: source tie of tucker(fixed_factors=...) and of the head of parafac2's main loop.  The `if fixed_factors:` branch of tucker
+   and the statements in front of parafac2's projection step are regenerated from the tensorly source on every run (tucker_src,
+   p2_head_src) and proved to agree with the model for all inputs (tucker_agrees, p2_head_agrees); the statements below hold for ANY
+   function that agrees, hence for the code's own. *)
+Theorem C14_tucker_any_source_fixed_factors : forall (F : Type) (zero : F) (add mul : F -> F -> F) (tk : tucker_ty (F := F)),
+  tucker_agrees zero add mul tk ->
+  forall (pt : tensor F -> list nat -> list (matrix (F := F)) -> tensor F * list (matrix (F := F)))
+    (core : tensor F) (fs : list (matrix (F := F))) (fixed : list nat),
+  fixed <> [] -> NoDup fixed -> (forall e, In e fixed -> e < length fs) ->
+  (forall c modes free, length (snd (pt c modes free)) = length free) ->
+  exists c out, tk core fs fixed pt = Ok (c, out) /\ length out = length fs /\
+    forall e d, In e fixed -> nth e out d = nth e fs d.
+Proof. exact @src_tucker_keeps_factors. Qed.
+Print Assumptions C14_tucker_any_source_fixed_factors.
+
+Theorem C14_tucker_any_source_all_fixed : forall (F : Type) (zero : F) (add mul : F -> F -> F) (tk : tucker_ty (F := F)),
+  tucker_agrees zero add mul tk ->
+  forall pt (core : tensor F) (fs : list (matrix (F := F))) (fixed : list nat),
+  fixed <> [] -> (forall i, i < length fs -> In i fixed) -> tk core fs fixed pt = Ok (core, fs).
+Proof. exact @src_tucker_all_fixed. Qed.
+Print Assumptions C14_tucker_any_source_all_fixed.
+
+Theorem C14_tucker_any_source_zero_budget_partial : forall (F : Type) (rO rI : F) (radd rmul rsub : F -> F -> F) (ropp : F -> F),
+  ring_theory rO rI radd rmul rsub ropp (@eq F) ->
+  forall (tk : tucker_ty (F := F)), tucker_agrees rO radd rmul tk ->
+  forall (core : tensor F) (fs : list (matrix (F := F))) (fixed : list nat),
+  fixed <> [] -> NoDup fixed -> (forall e, In e fixed -> e < length fs) ->
+  wf core -> length (shape core) = length fs ->
+  (forall e, In e fixed -> ncols (nth e fs []) = nth e (shape core) 0 /\
+                           orthonormal_cols rO rI radd rmul (ncols (nth e fs [])) (nth e fs [])) ->
+  tk core fs fixed (pt_zero (F := F)) = Ok (core, fs).
+Proof. exact src_tucker_zero_budget. Qed.
+Print Assumptions C14_tucker_any_source_zero_budget_partial.
+
+(* the translation of today's source agrees with the model, and so does the same branch with the core re-extracted before the fixed
+   factors are re-inserted (a harmless re-ordering); the branch without `sorted` does not *)
+Theorem C14_tucker_translation_agrees : forall (F : Type) (zero : F) (add mul : F -> F -> F),
+  tucker_agrees zero add mul (tucker_expect zero add mul) /\ tucker_agrees zero add mul (tucker_expect_reordered zero add mul).
+Proof. exact (fun F zero add mul => conj (tucker_expect_ok F zero add mul) (tucker_expect_reordered_ok F zero add mul)). Qed.
+Print Assumptions C14_tucker_translation_agrees.
+
+Theorem C14_tucker_unsorted_foil : ~ tucker_agrees 0%Z Z.add Z.mul (tucker_unsorted 0%Z Z.add Z.mul).
+Proof. exact tucker_unsorted_differs. Qed.
+Print Assumptions C14_tucker_unsorted_foil.
+
+Example C14_tucker_any_source_nonvacuous :
+  tucker_expect 0%Z Z.add Z.mul (mk [1; 1; 1] [2%Z]) [[[1%Z]]; [[5%Z]]; [[1%Z]]] [2; 0] (fun c _ fr => (c, map (map (map (Z.add 1%Z))) fr))
+  = Ok (mk [1; 1; 1] [2%Z], [[[1%Z]]; [[6%Z]]; [[1%Z]]]).
+Proof. vm_compute. reflexivity. Qed.
+
+(* parafac2: a loop whose head agrees with the model's (weights into factor 1, weights reset, in this order and unconditionally) gives the
+   same iterates from (w; A, B, C; P) and from (ones; A, B diag(w), C; P), for every update, stopping rule and positive budget; with a zero
+   budget it returns the (normalised iff normalize_factors) initialisation *)
+Theorem C14_parafac2_any_head_same_iterates : forall (F : Type) (rO rI : F) (radd rmul rsub : F -> F -> F) (ropp : F -> F),
+  ring_theory rO rI radd rmul rsub ropp (@eq F) ->
+  forall (PT : Type) upd stop normf normalize hd (R : nat) (w : list F) (fs : list (matrix (F := F))) (P : PT) (budget : nat),
+  p2_head_agrees rI rmul hd R -> normalize = false -> length w = R -> (forall row, In row (nth 1 fs []) -> R <= length row) -> 0 < budget ->
+  p2_run_hd upd stop normf normalize hd R budget (mkp2 (ones rI R) (absorb_at rmul 1 w fs) P)
+  = p2_run_hd upd stop normf normalize hd R budget (mkp2 w fs P).
+Proof. exact src_p2_run_same_iterates. Qed.
+Print Assumptions C14_parafac2_any_head_same_iterates.
+
+Theorem C14_parafac2_any_head_zero_budget : forall (F : Type) (PT : Type) upd stop normf normalize hd (R : nat) (s : p2st F PT),
+  p2_run_hd upd stop normf normalize hd R 0 s = if normalize then normf s else s.
+Proof. exact @src_p2_run_zero_budget. Qed.
+Print Assumptions C14_parafac2_any_head_zero_budget.
+
+Theorem C14_parafac2_head_translation_agrees : forall (F : Type) (one : F) (mul : F -> F -> F) R,
+  p2_head_agrees one mul (p2_head_model one mul R) R /\ p2_head_agrees one mul (p2_head_expect one mul) R.
+Proof. exact (fun F one mul R => conj (p2_head_model_agrees one mul R) (p2_head_expect_ok F one mul R)). Qed.
+Print Assumptions C14_parafac2_head_translation_agrees.
+
+(* a head that absorbs the weights only `if normalize_factors:` is not one: with normalize_factors=False the two forms of an initialisation
+   with the weight 2 give different iterates after one sweep (the weights are counted twice) *)
+Theorem C14_parafac2_guarded_head_foil :
+  let upd := fun (_ : nat) (s : p2st Z unit) => (p2f s, p2P s) in
+  p2_run_hd upd (fun _ _ => false) (fun s => s) false (p2_head_guarded false) 1 1 (mkp2 [1%Z] (absorb_at Z.mul 1 [2%Z] [[[1%Z]]; [[1%Z]]; [[1%Z]]]) tt)
+  <> p2_run_hd upd (fun _ _ => false) (fun s => s) false (p2_head_guarded false) 1 1 (mkp2 [2%Z] [[[1%Z]]; [[1%Z]]; [[1%Z]]] tt)
+  /\ ~ p2_head_agrees 1%Z Z.mul (p2_head_guarded false) 1.
+Proof. exact p2_head_guarded_differs. Qed.
+Print Assumptions C14_parafac2_guarded_head_foil.
+
+(* `if fixed_factors:` of tucker tests the request as the caller passes it: a tuple behaves as the list; an ndarray request does not
+   (known finding tucker_fixed_factors_ndarray_request: array([0]) is false, so the request is ignored; two or more entries raise) *)
+Theorem C14_tucker_request_truth_value : forall l : list Z,
+  request_truth CTuple l = request_truth CList l /\ (request_truth CList l = Ok true <-> l <> []).
+Proof. exact request_truth_list_tuple. Qed.
+Print Assumptions C14_tucker_request_truth_value.
+
+Theorem C14_tucker_request_truth_value_partial : forall z : Z, request_truth CArray [z] = Ok true <-> z <> 0%Z.
+Proof. exact request_truth_array_single. Qed.
+Print Assumptions C14_tucker_request_truth_value_partial.
+
+Theorem C14_tucker_request_truth_value_refuted :
+  request_truth CArray [0%Z] = Ok false /\ request_truth CList [0%Z] = Ok true /\ request_truth CArray [0%Z; 1%Z] = Err /\ request_truth CList [0%Z; 1%Z] = Ok true.
+Proof. exact request_truth_array_witness. Qed.
+Print Assumptions C14_tucker_request_truth_value_refuted.
+
+(* ---- the estimator classes as argument routers (Proofs/WarmStartCls.v): the tables store (attribute |-> constructor parameter) and pass
+   (driver keyword |-> attribute) of CP, CP_NN, CP_NN_HALS, ConstrainedCP, Tucker, Tucker_NN, Tucker_NN_HALS and Parafac2 are regenerated
+   from the source on every run and routes_ok is checked on them; then the driver receives under every keyword the caller's own
+   constructor argument, and a driver that reads only such keywords computes what the direct function call computes *)
+Theorem C14_class_routes : forall (V : Type) (need : list string) (store pass : table), routes_ok need store pass = true ->
+  forall (ar : string -> V) (k : string), (In k need \/ lookup k pass <> None) -> kw_of store pass ar k = Some (ar k).
+Proof. exact @class_routes. Qed.
+Print Assumptions C14_class_routes.
+
+Theorem C14_class_is_function_call : forall (V Out : Type) (drv : (string -> option V) -> Out) (reads need : list string) (store pass : table),
+  routes_ok need store pass = true ->
+  (forall k, In k reads -> In k need \/ lookup k pass <> None) ->
+  (forall f g, (forall k, In k reads -> f k = g k) -> drv f = drv g) ->
+  forall ar : string -> V, drv (kw_of store pass ar) = drv (direct ar).
+Proof. exact @class_is_function_call. Qed.
+Print Assumptions C14_class_is_function_call.
+
+Theorem C14_class_misrouted_foil :
+  routes_ok ["init"%string] [("init", "init"); ("fixed_modes", "init")]%string [("init", "init"); ("fixed_modes", "fixed_modes")]%string = false /\
+  routes_ok ["init"; "fixed_modes"]%string cp_store_expect [("init", "init")]%string = false.
+Proof. exact cp_misrouted_rejected. Qed.
+Print Assumptions C14_class_misrouted_foil.
+
+Example C14_class_routes_nonvacuous :
+  routes_ok ["init"; "n_iter_max"; "fixed_modes"; "normalize_factors"]%string cp_store_expect cp_pass_expect = true /\
+  kw_of cp_store_expect cp_pass_expect (fun p => if String.eqb p "fixed_modes" then 7 else 0) "fixed_modes"%string = Some 7.
+Proof. vm_compute. split; reflexivity. Qed.
